@@ -1,6 +1,9 @@
 gen/ActiveTagTables.vo gen/ActiveTagTables.glob gen/ActiveTagTables.v.beautified gen/ActiveTagTables.required_vo: gen/ActiveTagTables.v theories/Base.vo
 gen/ActiveTagTables.vio: gen/ActiveTagTables.v theories/Base.vio
 gen/ActiveTagTables.vos gen/ActiveTagTables.vok gen/ActiveTagTables.required_vos: gen/ActiveTagTables.v theories/Base.vos
+gen/ConfigTables.vo gen/ConfigTables.glob gen/ConfigTables.v.beautified gen/ConfigTables.required_vo: gen/ConfigTables.v theories/Base.vo theories/ConfigTypes.vo
+gen/ConfigTables.vio: gen/ConfigTables.v theories/Base.vio theories/ConfigTypes.vio
+gen/ConfigTables.vos gen/ConfigTables.vok gen/ConfigTables.required_vos: gen/ConfigTables.v theories/Base.vos theories/ConfigTypes.vos
 gen/StatusTable.vo gen/StatusTable.glob gen/StatusTable.v.beautified gen/StatusTable.required_vo: gen/StatusTable.v theories/Base.vo theories/Status.vo
 gen/StatusTable.vio: gen/StatusTable.v theories/Base.vio theories/Status.vio
 gen/StatusTable.vos gen/StatusTable.vok gen/StatusTable.required_vos: gen/StatusTable.v theories/Base.vos theories/Status.vos
@@ -25,6 +28,15 @@ theories/Capture.vos theories/Capture.vok theories/Capture.required_vos: theorie
 theories/CaptureProofs.vo theories/CaptureProofs.glob theories/CaptureProofs.v.beautified theories/CaptureProofs.required_vo: theories/CaptureProofs.v theories/Base.vo theories/Capture.vo
 theories/CaptureProofs.vio: theories/CaptureProofs.v theories/Base.vio theories/Capture.vio
 theories/CaptureProofs.vos theories/CaptureProofs.vok theories/CaptureProofs.required_vos: theories/CaptureProofs.v theories/Base.vos theories/Capture.vos
+theories/Config.vo theories/Config.glob theories/Config.v.beautified theories/Config.required_vo: theories/Config.v theories/Base.vo theories/UStr.vo theories/ConfigTypes.vo theories/UserData.vo gen/ConfigTables.vo
+theories/Config.vio: theories/Config.v theories/Base.vio theories/UStr.vio theories/ConfigTypes.vio theories/UserData.vio gen/ConfigTables.vio
+theories/Config.vos theories/Config.vok theories/Config.required_vos: theories/Config.v theories/Base.vos theories/UStr.vos theories/ConfigTypes.vos theories/UserData.vos gen/ConfigTables.vos
+theories/ConfigProofs.vo theories/ConfigProofs.glob theories/ConfigProofs.v.beautified theories/ConfigProofs.required_vo: theories/ConfigProofs.v theories/Base.vo theories/UStr.vo theories/ConfigTypes.vo theories/UserData.vo theories/Config.vo gen/ConfigTables.vo
+theories/ConfigProofs.vio: theories/ConfigProofs.v theories/Base.vio theories/UStr.vio theories/ConfigTypes.vio theories/UserData.vio theories/Config.vio gen/ConfigTables.vio
+theories/ConfigProofs.vos theories/ConfigProofs.vok theories/ConfigProofs.required_vos: theories/ConfigProofs.v theories/Base.vos theories/UStr.vos theories/ConfigTypes.vos theories/UserData.vos theories/Config.vos gen/ConfigTables.vos
+theories/ConfigTypes.vo theories/ConfigTypes.glob theories/ConfigTypes.v.beautified theories/ConfigTypes.required_vo: theories/ConfigTypes.v theories/Base.vo
+theories/ConfigTypes.vio: theories/ConfigTypes.v theories/Base.vio
+theories/ConfigTypes.vos theories/ConfigTypes.vok theories/ConfigTypes.required_vos: theories/ConfigTypes.v theories/Base.vos
 theories/Context.vo theories/Context.glob theories/Context.v.beautified theories/Context.required_vo: theories/Context.v theories/Base.vo
 theories/Context.vio: theories/Context.v theories/Base.vio
 theories/Context.vos theories/Context.vok theories/Context.required_vos: theories/Context.v theories/Base.vos
@@ -94,6 +106,12 @@ theories/TagExprProofs.vos theories/TagExprProofs.vok theories/TagExprProofs.req
 theories/UStr.vo theories/UStr.glob theories/UStr.v.beautified theories/UStr.required_vo: theories/UStr.v theories/Base.vo gen/UnicodeTables.vo
 theories/UStr.vio: theories/UStr.v theories/Base.vio gen/UnicodeTables.vio
 theories/UStr.vos theories/UStr.vok theories/UStr.required_vos: theories/UStr.v theories/Base.vos gen/UnicodeTables.vos
+theories/UserData.vo theories/UserData.glob theories/UserData.v.beautified theories/UserData.required_vo: theories/UserData.v theories/Base.vo theories/UStr.vo theories/ConfigTypes.vo gen/ConfigTables.vo
+theories/UserData.vio: theories/UserData.v theories/Base.vio theories/UStr.vio theories/ConfigTypes.vio gen/ConfigTables.vio
+theories/UserData.vos theories/UserData.vok theories/UserData.required_vos: theories/UserData.v theories/Base.vos theories/UStr.vos theories/ConfigTypes.vos gen/ConfigTables.vos
+theories/UserDataProofs.vo theories/UserDataProofs.glob theories/UserDataProofs.v.beautified theories/UserDataProofs.required_vo: theories/UserDataProofs.v theories/Base.vo theories/UStr.vo theories/ConfigTypes.vo theories/UserData.vo gen/ConfigTables.vo gen/UnicodeTables.vo
+theories/UserDataProofs.vio: theories/UserDataProofs.v theories/Base.vio theories/UStr.vio theories/ConfigTypes.vio theories/UserData.vio gen/ConfigTables.vio gen/UnicodeTables.vio
+theories/UserDataProofs.vos theories/UserDataProofs.vok theories/UserDataProofs.required_vos: theories/UserDataProofs.v theories/Base.vos theories/UStr.vos theories/ConfigTypes.vos theories/UserData.vos gen/ConfigTables.vos gen/UnicodeTables.vos
 props/C01.vo props/C01.glob props/C01.v.beautified props/C01.required_vo: props/C01.v theories/Base.vo theories/Status.vo theories/Rollup.vo theories/Runner.vo theories/RunnerVerdict.vo theories/RunnerSteps.vo theories/RunnerQuiet.vo theories/RunnerEq.vo gen/StatusTable.vo
 props/C01.vio: props/C01.v theories/Base.vio theories/Status.vio theories/Rollup.vio theories/Runner.vio theories/RunnerVerdict.vio theories/RunnerSteps.vio theories/RunnerQuiet.vio theories/RunnerEq.vio gen/StatusTable.vio
 props/C01.vos props/C01.vok props/C01.required_vos: props/C01.v theories/Base.vos theories/Status.vos theories/Rollup.vos theories/Runner.vos theories/RunnerVerdict.vos theories/RunnerSteps.vos theories/RunnerQuiet.vos theories/RunnerEq.vos gen/StatusTable.vos
@@ -136,3 +154,6 @@ props/C18.vos props/C18.vok props/C18.required_vos: props/C18.v theories/Base.vo
 props/C19.vo props/C19.glob props/C19.v.beautified props/C19.required_vo: props/C19.v theories/Base.vo theories/UStr.vo theories/ActiveTag.vo theories/ActiveTagProofs.vo
 props/C19.vio: props/C19.v theories/Base.vio theories/UStr.vio theories/ActiveTag.vio theories/ActiveTagProofs.vio
 props/C19.vos props/C19.vok props/C19.required_vos: props/C19.v theories/Base.vos theories/UStr.vos theories/ActiveTag.vos theories/ActiveTagProofs.vos
+props/C20.vo props/C20.glob props/C20.v.beautified props/C20.required_vo: props/C20.v theories/Base.vo theories/UStr.vo theories/ConfigTypes.vo theories/UserData.vo theories/Config.vo theories/ConfigProofs.vo theories/UserDataProofs.vo gen/ConfigTables.vo
+props/C20.vio: props/C20.v theories/Base.vio theories/UStr.vio theories/ConfigTypes.vio theories/UserData.vio theories/Config.vio theories/ConfigProofs.vio theories/UserDataProofs.vio gen/ConfigTables.vio
+props/C20.vos props/C20.vok props/C20.required_vos: props/C20.v theories/Base.vos theories/UStr.vos theories/ConfigTypes.vos theories/UserData.vos theories/Config.vos theories/ConfigProofs.vos theories/UserDataProofs.vos gen/ConfigTables.vos
